@@ -350,7 +350,16 @@ def runBase (ds : DS) (env : Env) (j : Json) (o : ObsSt) : E (List Node × List 
     let h ← jnat (← jget j "h")
     let page ← jstrList (← jget j "page")
     let mp := (Ledger.page cfg.pageSize n.led.blocks h).map env.hash
-    pure ([n], [("read", if mp == page then "ok" else s!"DIFF page h={h} model={short mp} impl={short page}")])
+    -- what a peer received (and decoded) for the same request through the node's blocks controller
+    let served := (jstrList (jgetD j "served")).toOption
+    let servedDiff := match served with
+      | some sv => if sv == mp then [] else [("read2", s!"DIFF served page h={h} model={short mp} impl={short sv}")]
+      | none => []
+    -- C15 on the implementation alone: the blocks a receiver decodes are the blocks the node holds
+    let c15 := match served with
+      | some sv => if sv == page then [] else [("prop", s!"C15 served-blocks-are-not-the-blocks-the-node-holds h={h} held={short page} received={short sv}")]
+      | none => if (jgetD j "served_error").isNull then [] else [("prop", s!"C15 blocks-request-failed h={h}")]
+    pure ([n], [("read", if mp == page then "ok" else s!"DIFF page h={h} model={short mp} impl={short page}")] ++ servedDiff ++ c15)
   | _ => throw s!"unknown op {op}"
 
 /-- `synctick`: a sync round during which the node's own tick ran to completion — the candidates are those of the
@@ -417,6 +426,7 @@ def step (ds : DS) (j : Json) : E (DS × Out) := do
   for (k, v) in info do
     if k == "rewarddiff" && v != "" then diffs := diffs ++ [v]
     if k == "read" && v != "ok" then diffs := diffs ++ [v]
+    if k == "read2" then diffs := diffs ++ [v]
   if op == "regsync" then
     let n := getNode ds name
     let invalid ← jstrList (jgetD j "invalid")
